@@ -4,8 +4,8 @@ package router
 
 // Scratch-copy-only exports for the /verif C20 monitor (never part of tucats/ego).
 
-// VerifFlags is a copy of the gate-relevant fields of a route as the builder calls left them.
-type VerifFlags struct {
+// VerifC20Flags is a copy of the gate-relevant fields of a route as the builder calls left them.
+type VerifC20Flags struct {
 	Endpoint         string
 	Method           string
 	MustAuthenticate bool
@@ -21,9 +21,9 @@ type VerifFlags struct {
 	Filename         string
 }
 
-// VerifFlags reads the route's fields.
-func (r *Route) VerifFlags() VerifFlags {
-	f := VerifFlags{
+// VerifC20Flags reads the route's fields.
+func (r *Route) VerifC20Flags() VerifC20Flags {
+	f := VerifC20Flags{
 		Endpoint: r.endpoint, Method: r.method, MustAuthenticate: r.mustAuthenticate, CanAuthenticate: r.canAuthenticate,
 		Lightweight: r.lightweight, CheckCredentials: r.checkCredentials, Redirect: r.redirect, Filename: r.filename,
 		Parameters: map[string]string{},
@@ -44,9 +44,9 @@ func (r *Route) VerifFlags() VerifFlags {
 	return f
 }
 
-// VerifSwapHandler replaces the route's handler (ServeHTTP copies route.handler into the
+// VerifC20SwapHandler replaces the route's handler (ServeHTTP copies route.handler into the
 // session per request) and returns the previous one.
-func (r *Route) VerifSwapHandler(h HandlerFunc) HandlerFunc {
+func (r *Route) VerifC20SwapHandler(h HandlerFunc) HandlerFunc {
 	old := r.handler
 	r.handler = h
 
